@@ -23,7 +23,7 @@ Definition nf_type_bit (t : nf_type) : Z :=
 Definition nf_type_eqb (a b : nf_type) : bool := nf_type_bit a =? nf_type_bit b.
 
 (* "ftype & filter" *)
-Definition nf_admits (filter bit : Z) : bool := negb (Z.land bit filter =? 0).
+Definition nf_passes (filter bit : Z) : bool := negb (Z.land bit filter =? 0).
 
 (* host->GetState() / service->GetState() from state_raw: Host::CalculateState maps OK,Warning to Up *)
 Definition nf_api_state (svc : bool) (raw : Z) : Z :=
@@ -153,6 +153,12 @@ Fixpoint nf_lns_set (k v : Z) (l : list (Z * Z)) : list (Z * Z) :=
   | (k', v') :: r => if k' =? k then (k, v) :: r else (k', v') :: nf_lns_set k v r
   end.
 
+(* lines 484-487 and 491-492 *)
+Definition nf_lns_upd (id st : Z) (lns : list (Z * Z)) : list (Z * Z) :=
+  if negb (st =? nf_lns_get id lns) then nf_lns_set id st lns else lns.
+Definition nf_npu_add (id : Z) (npu : list Z) : list Z :=
+  if negb (nf_mem id npu) then npu ++ [id] else npu.
+
 (* one BeginExecuteNotification call *)
 Record nf_exec := {
   ne_type : nf_type; ne_force : bool; ne_reminder : bool;
@@ -172,16 +178,16 @@ Definition nf_pre (c : nf_cfg) (now : Z) (x : nf_ctx) (ty : nf_type) (force : bo
   else if cx_per_closed x then NfGPeriod
   else if nf_type_eqb ty NfProblem && nf_opt_active (nfc_begin c) && (now <? cx_lhsc x + nf_opt_val (nfc_begin c)) then NfGBegin
   else if nf_type_eqb ty NfProblem && nf_opt_active (nfc_end c) && (cx_lhsc x + nf_opt_val (nfc_end c) <? now) then NfGEnd
-  else if negb (nf_admits (nfc_types c) (nf_type_bit ty)) then NfGType
-  else if nf_type_eqb ty NfProblem && negb (nf_admits (nfc_states c) (nf_state_bit (nfc_svc c) (cx_raw x))) then NfGState
+  else if negb (nf_passes (nfc_types c) (nf_type_bit ty)) then NfGType
+  else if nf_type_eqb ty NfProblem && negb (nf_passes (nfc_states c) (nf_state_bit (nfc_svc c) (cx_raw x))) then NfGState
   else NfGo.
 
 (* CheckNotificationUserFilters *)
 Definition nf_user_filters (c : nf_cfg) (x : nf_ctx) (ty : nf_type) (force : bool) (u : nf_user) : bool :=
   if force then true
   else if nfu_per_closed u then false
-  else if negb (nf_admits (nfu_types u) (nf_type_bit ty)) then false
-  else if negb (nf_type_eqb ty NfRecovery) && negb (nf_admits (nfu_states u) (nf_state_bit (nfc_svc c) (cx_raw x))) then false
+  else if negb (nf_passes (nfu_types u) (nf_type_bit ty)) then false
+  else if negb (nf_type_eqb ty NfRecovery) && negb (nf_passes (nfu_states u) (nf_state_bit (nfc_svc c) (cx_raw x))) then false
   else true.
 
 (* one iteration of the per-user loop, lines 415-465: is the command queued for u? *)
@@ -189,8 +195,8 @@ Definition nf_user_sends (c : nf_cfg) (x : nf_ctx) (ty : nf_type) (force reminde
            (npu : list Z) (lns : list (Z * Z)) (u : nf_user) : bool :=
   if negb (nfu_enable u) then false
   else if negb (nf_user_filters c x ty force u) then false
-  else if nf_type_eqb ty NfRecovery && negb (nf_mem (nfu_id u) npu) && nf_admits (nfu_types u) 32 then false
-  else if nf_type_eqb ty NfAck && negb (nf_mem (nfu_id u) npu) && nf_admits (nfu_types u) 32 then false
+  else if nf_type_eqb ty NfRecovery && negb (nf_mem (nfu_id u) npu) && nf_passes (nfu_types u) 32 then false
+  else if nf_type_eqb ty NfAck && negb (nf_mem (nfu_id u) npu) && nf_passes (nfu_types u) 32 then false
   else if nf_type_eqb ty NfProblem && negb reminder && negb (cx_volatile x)
           && (nf_api_state (nfc_svc c) (cx_raw x) =? nf_lns_get (nfu_id u) lns) then false
   else true.
@@ -203,8 +209,8 @@ Fixpoint nf_loop (c : nf_cfg) (x : nf_ctx) (ty : nf_type) (force reminder : bool
       if nf_user_sends c x ty force reminder npu lns u then
         let id := nfu_id u in
         let st := nf_api_state (nfc_svc c) (cx_raw x) in
-        let lns1 := if nf_type_eqb ty NfProblem && negb (st =? nf_lns_get id lns) then nf_lns_set id st lns else lns in
-        let npu1 := if nf_type_eqb ty NfProblem && negb (nf_mem id npu) then npu ++ [id] else npu in
+        let lns1 := if nf_type_eqb ty NfProblem then nf_lns_upd id st lns else lns in
+        let npu1 := if nf_type_eqb ty NfProblem then nf_npu_add id npu else npu in
         let '(s, nl) := nf_loop c x ty force reminder r npu1 lns1 in (id :: s, nl)
       else nf_loop c x ty force reminder r npu lns
   end.
